@@ -170,7 +170,7 @@ theorem canonF_gens_full (hst : StablePerm) (hx : ExpandCert) (fuel : Nat) (g : 
         have hw : w < g.n := (hmem w).1 (List.mem_of_getElem? hvw)
         simp only [h0 v hv, h0 w hw]
     · obtain ⟨hnbok, hsz⟩ := nbOK_nbrsOf g hg
-      obtain ⟨gs, ds, e1, e2, e3', e4, _, e6⟩ := allocated_cert hst hx
+      obtain ⟨gs, ds, e1, e2, e3', e4, _, _, e6⟩ := allocated_cert hst hx
         (clsOrdQ hst g.n (nbrsOf g) (fun v => (op.inCell.toList[v]?).getD 0) op.binDividers.toList)
         hn (fun hm h1 => hsc ⟨hm, h1⟩) rfl hp ha hage
         hspl hval (ClsInv.init hp ha hage) hnbok (fun o ho => certPos_length hnbok hsz ho) hal
